@@ -12,6 +12,7 @@
 //     or ep=<e0>/<e1>/...: one correct() call per epoch on the same object; during epoch i the methods named in
 //     e_i (e.g. `no`, `mepr`, `-` = none) answer "unavailable" however often -- or whether at all -- they are asked
 //     (sis-*: one epoch per filtering step; <steps> must equal the number of epochs)
+//     optional token degen=1 (belief with -inf / 0 weights, a zero covariance, duplicated components);
 //     optional tokens deco=1 (models wrapped in a forwarding decorator), move=1 (correction handed over by move
 //     construction), massign=1 (bootstrap / gpf: by move assignment);
 //     optional token alias=1: in-place calls correct(b, b) (the signature allows it); labels then compare b after the
@@ -44,6 +45,7 @@
 #include <BayesFilters/SIS.h>
 #include <BayesFilters/utils.h>
 #include <memory>
+#include <limits>
 
 using namespace bfl;
 using namespace Eigen;
@@ -147,6 +149,7 @@ struct HDeco : public LinearMeasurementModel {
     std::unique_ptr<LinearMeasurementModel> m_;
 };
 
+static bool g_degen = false;     // degenerate belief: -inf and 0 weights, a singular (zero) covariance, duplicated components
 static bool g_deco = false;      // wrap every scripted model in the forwarding decorator
 static bool g_move = false;      // hand the correction over by move construction before using it
 static bool g_massign = false;   // (bootstrap, gpf) hand over by move assignment into an object built around all-valid models
@@ -188,6 +191,11 @@ static void fillGM(GaussianMixture& b, Rng& r) {
         MatrixXd P = B * B.transpose(); for (long i = 0; i < n; ++i) P(i, i) += 0.5 + 0.125 * c;
         b.covariance(c) = P;
         b.weight(c) = -r.pos(0.1, 3.0);
+    }
+    if (g_degen) {
+        b.weight(0) = -std::numeric_limits<double>::infinity();
+        if (k > 1) { b.weight(k - 1) = 0.0; b.mean(k - 1) = b.mean(0); b.covariance(k - 1) = b.covariance(0); }   // exact duplicate of component 0
+        if (k > 2) b.covariance(1).setZero();                                                                  // singular
     }
 }
 static void fillPS(ParticleSet& b, Rng& r) {
@@ -421,11 +429,12 @@ static std::string fault_case(Toks& t) {
     std::string cls = t.tok(); uint64_t seed = (uint64_t)t.nat(); long n = t.nat(), m = t.nat(), k = t.nat(), sub = t.nat();
     if (n < 1 || n > 6 || m < 1 || m > 6 || k < 1 || k > 8 || sub < 1 || sub > 8) throw vh::BadArgs("size");
     std::shared_ptr<Script> s(new Script()); parse_scripts(t, *s);
-    long reps = 1; bool alias = false; g_deco = g_move = g_massign = false;
+    long reps = 1; bool alias = false; g_deco = g_move = g_massign = g_degen = false;
     while (!t.empty()) {
         std::string rt = t.tok();
         if (rt == "alias=1") alias = true;
         else if (rt == "deco=1") g_deco = true;
+        else if (rt == "degen=1") g_degen = true;
         else if (rt == "move=1") g_move = true;
         else if (rt == "massign=1") g_massign = true;
         else if (rt == "alias=0") alias = false;
